@@ -111,6 +111,17 @@ def forbidden_scan():
     return bad
 
 
+def coqchk_props(props_files):
+    """independent re-check (coqchk) of the compiled Props files and everything they depend on; returns (ok, summary)"""
+    mods = " ".join("TS." + pf[:-2].replace("/", ".") for pf in props_files)
+    rc, out, _ = sh(f"timeout 3000 coqchk -o -silent -Q . TS {mods}", cwd=COQ)
+    m = re.search(r"CONTEXT SUMMARY(.*)", out, re.S)
+    summ = (m.group(1) if m else out[-600:])
+    flat = re.sub(r"\s+", " ", summ)
+    ok = rc == 0 and all(f"{k}: <none>" in flat for k in ("Axioms", "relying on type-in-type", "relying on unsafe (co)fixpoints", "whose positivity is assumed"))
+    return ok, flat.strip()[:600]
+
+
 def check_obligations(pid, props_files):
     """Returns dict: theorems, discharged, broken (list of names/reasons), axioms per theorem."""
     res = {"theorems": [], "discharged": [], "broken": [], "axioms": {}}
